@@ -1084,6 +1084,8 @@ func (sq *Queue) RemoveApplication(app *Application) {
 	delete(sq.allocatingAcceptedApps, appID)
 	priority := sq.recalculatePriority()
 	sq.Unlock()
+	// setAllocatingAccepted tracks the application on every queue up to the root: clean up the parents too
+	sq.parent.removeAllocatingAccepted(appID)
 	app.appEvents.SendRemoveApplicationEvent(appID)
 
 	sq.parent.UpdateQueuePriority(sq.Name, priority)
@@ -2077,6 +2079,18 @@ func (sq *Queue) setAllocatingAccepted(appID string) {
 	sq.Lock()
 	defer sq.Unlock()
 	sq.allocatingAcceptedApps[appID] = true
+}
+
+// removeAllocatingAccepted removes the application from the applications tracked as allocating in the accepted state.
+// For this queue (recursively).
+func (sq *Queue) removeAllocatingAccepted(appID string) {
+	if sq == nil {
+		return
+	}
+	sq.parent.removeAllocatingAccepted(appID)
+	sq.Lock()
+	defer sq.Unlock()
+	delete(sq.allocatingAcceptedApps, appID)
 }
 
 func (sq *Queue) GetPreemptionPolicy() policies.PreemptionPolicy {
